@@ -19,7 +19,8 @@ One function per sweep of `reconcileBucket` (each sweep lists afresh):
 
 `guardVersioned = false` is the code as it is (the version-addressed DeleteObject of the
 noncurrent-version expiration carries no IfMatchETag); `true` is the repaired variant
-(fixes/C25-noncurrent-expiration-if-match.patch).
+(fixes/C25-noncurrent-expiration-if-match.patch). `strictDm` likewise for the expired-object
+delete-marker sweep (fixes/C25-expired-delete-marker-sole-version.patch).
 Not modelled: listing pagination (> 1000 entries), tag-fetch errors, cancellation, the ticker.
 Core Lean only.
 -/
@@ -356,18 +357,23 @@ def ncTransitionPhase (rules : List Rule) (now : Int) (vs : List Ver) : List Cal
 /-- the last listed entry of the key that is both latest and a delete marker -/
 def currentDm (vs : List Ver) : Option Ver := (vs.reverse.find? fun v => v.latest && v.dm)
 
+/-- what makes the key ineligible (`candidate.hasObjectVersion`): as it is, any listed version that
+is not a delete marker; `strictDm` (fixes/C25-expired-delete-marker-sole-version.patch): any listed
+version other than the current delete marker, i.e. S3's "zero noncurrent versions". -/
+def blocksDm (strictDm : Bool) (v : Ver) : Bool := if strictDm then !(v.latest && v.dm) else !v.dm
+
 /-- `expireObjectDeleteMarkers` for one key (`vs` = that key's listed versions) -/
-def dmKey (rules : List Rule) (vs : List Ver) : Option Call :=
+def dmKey (strictDm : Bool) (rules : List Rule) (vs : List Ver) : Option Call :=
   match currentDm vs with
   | none => none
   | some d =>
-    if vs.any (fun v => !v.dm) then none
+    if vs.any (blocksDm strictDm) then none
     else match (rules.filter isDmRule).find? (fun r => ruleMatches r d.key d.size []) with
       | some _ => some (.del d.key (some d.vid) none)
       | none => none
 
-def dmPhase (rules : List Rule) (vs : List Ver) : List Call :=
-  (keysOf vs).filterMap fun k => dmKey rules (vs.filter (·.key == k))
+def dmPhase (strictDm : Bool) (rules : List Rule) (vs : List Ver) : List Call :=
+  (keysOf vs).filterMap fun k => dmKey strictDm rules (vs.filter (·.key == k))
 
 /-! ### incomplete multipart uploads -/
 
